@@ -1261,8 +1261,18 @@ func analyseLocks() (funcs []lkFunc, bad []string) {
 	return funcs, bad
 }
 
+// safeAnalyseLocks turns an unexpected failure of the walker into "not translated".
+func safeAnalyseLocks() (funcs []lkFunc, bad []string) {
+	defer func() {
+		if r := recover(); r != nil {
+			funcs, bad = nil, []string{fmt.Sprintf("walker failed: %v", r)}
+		}
+	}()
+	return analyseLocks()
+}
+
 func genLocks() {
-	funcs, bad := analyseLocks()
+	funcs, bad := safeAnalyseLocks()
 	var b bytes.Buffer
 	b.WriteString(genHeader)
 	b.WriteString("(* C09: per-function lock/access summaries of template/template.go and template/escape.go (DESIGN F.4).\n")
